@@ -106,7 +106,7 @@ class SimpleThrottleHandler(AbstractThrottleHandler):
     @property
     def percent_throttles(self) -> float:
         total_smsc_responses: int = self.non_throttle_responses + self.throttle_responses
-        if total_smsc_responses < self.sample_size:
+        if total_smsc_responses < self.sample_size or total_smsc_responses == 0:
             # We do not have enough data to make a decision, so assume happy case
             return 0.0
         return round((self.throttle_responses / (total_smsc_responses)) * 100, 2)
